@@ -262,6 +262,9 @@ def extract_orders(repo):
     return out
 
 
+PIN_OBJS = ('tcpin', 'lrurel', 'tbluse', 'tblfree')
+
+
 def run_c10(tier, seed):
     prop = 'C10'
     t0 = time.time(); out = Outcome(prop); quick = tier == 'quick'
@@ -272,8 +275,13 @@ def run_c10(tier, seed):
     st = dict(executions=0, accesses=0, objects=set(), states=0)
 
     def validate(ex):
-        evs = [e for e in sr.load_events(ex.trace) if e['e'] in ('Acc', 'CloseWaited', 'Reset', 'open')]
+        allev = [e for e in sr.load_events(ex.trace) if e['e'] in ('Acc', 'CloseWaited', 'Reset', 'open')]
+        evs = [e for e in allev if e.get('obj') not in PIN_OBJS]
         path = os.path.join(ex.dir, 'acc.ndjson'); sr.write_trace(path, evs)
+        # the pin protocol of the table cache (PinTrace.tla) over the same run
+        pev = [e for e in allev if e['e'] != 'Acc' or e.get('obj') in PIN_OBJS]
+        ppath = os.path.join(ex.dir, 'pin.ndjson'); sr.write_trace(ppath, pev)
+        ex.pin = (pev, c.trace_validate('PinTrace', 'PinTrace.cfg', ppath, timeout=900, heap='4g'), ppath)
         return ex, evs, c.trace_validate('LocksetTrace', 'LocksetTrace.cfg', path, timeout=900, heap='4g'), path
     sample = None
     for ex, evs, r, path in c.pmap(validate, [e for e in execs if e.rc == 0], 6):
@@ -288,6 +296,18 @@ def run_c10(tier, seed):
             json.dump(dict(kind='conc', prop=prop, exec=ex.desc(), violated=r['violated'], line=idx, event=bad), open(os.path.join(d, 'replay.json'), 'w'), indent=1)
             out.violation('shared object %s is modified by several threads with no common lock (access %s)' % ((bad or {}).get('obj'), json.dumps(bad)[:200]), d,
                           dict(kind='lockset', obj=(bad or {}).get('obj')))
+    st['pin_events'] = 0; st['pin_lookups'] = 0
+    for ex in execs:
+        if ex.rc != 0 or not hasattr(ex, 'pin'): continue
+        pev, pr, ppath = ex.pin
+        st['pin_events'] += len(pev); st['pin_lookups'] += sum(1 for e in pev if e.get('obj') == 'tbluse' and e.get('w') == 1); st['states'] += pr['res'].distinct
+        if not pr['accepted'] and not out.full():
+            idx = pr['prefix'] or 0
+            bad = pev[idx] if idx < len(pev) else None
+            d = c.replay_dir(prop, 'pin'); shutil.copy(ppath, os.path.join(d, 'pin_trace.ndjson'))
+            json.dump(dict(kind='conc', prop=prop, exec=ex.desc(), line=idx, event=bad, context=pev[max(0, idx - 6):idx + 1]), open(os.path.join(d, 'replay.json'), 'w'), indent=1)
+            out.violation('table-cache pin protocol broken: a table is used without a pin held by the using thread, or destroyed while in use (%s)' % json.dumps(bad)[:200], d,
+                          dict(kind='pin', obj=(bad or {}).get('obj')))
     for ex in execs:
         if ex.dir: c.rmtree(ex.dir)
     st['objects'] = sorted(st['objects'])
